@@ -219,15 +219,17 @@ func (h *FSEventHandler) UpsertHash(fileName string, hash [sha256.Size]byte) (up
 }
 
 var (
-	writeStringLiteralArg = regexp.MustCompile(`(templruntime\.WriteString\(templ_7745c5c3_Buffer, \d+, )"(?:[^"\\]|\\.)*"\)`)
-	templErrorPosition    = regexp.MustCompile(`Line: \d+, Col: \d+`)
+	// Both match whole statements of the generated code: the same text inside a constant CSS property, a script
+	// template or a Go string is part of the program.
+	writeStringLiteralArg = regexp.MustCompile(`(?m)^(\s*templ_7745c5c3_Err = templruntime\.WriteString\(templ_7745c5c3_Buffer, \d+, )"(?:[^"\\]|\\.)*"\)$`)
+	templErrorPosition    = regexp.MustCompile(`(?m)^(\s*return templ\.Error\{Err: templ_7745c5c3_Err, FileName: .*, )Line: \d+, Col: \d+\}$`)
 )
 
 // generatedCodeShape returns the generated code without the parts that development mode reads from the
 // text file (the string literals) or that only locate errors.
 func generatedCodeShape(goCode []byte) []byte {
 	goCode = writeStringLiteralArg.ReplaceAll(goCode, []byte(`$1"")`))
-	return templErrorPosition.ReplaceAll(goCode, []byte("Line: 0, Col: 0"))
+	return templErrorPosition.ReplaceAll(goCode, []byte("${1}Line: 0, Col: 0}"))
 }
 
 // generate Go code for a single template.
